@@ -49,4 +49,15 @@ def parsePairs (s : String) : Option (List (Bytes × Bytes)) :=
 def parseList (s : String) : Option (List Bytes) :=
   if s == "-" then some [] else (s.splitOn ",").mapM ofHex
 
+/-- side hashes: in full up to 4, otherwise `len:digest` -/
+def fmtSides (s : List Bytes) : String :=
+  if s.isEmpty then "-"
+  else if s.length ≤ 4 then ",".intercalate (s.map toHex)
+  else s!"{s.length}:{toHex (H s.flatten)}"
+
+def fmtProof : Proof → String
+  | .inclusion s => s!"incl {fmtSides s}"
+  | .exclusion s .placeholder => s!"excl {fmtSides s} ph"
+  | .exclusion s (.leaf k v) => s!"excl {fmtSides s} {toHex k}:{toHex v}"
+
 end FuelVerif.Drv.Smt
